@@ -271,6 +271,12 @@ def explore_check(prop, tier, tasks, rule, assumptions, extra_cov=None, level="m
     errors = []
     samples = []
     caps = []
+    only = os.environ.get("JMC_ONLY")
+    if only:
+        # debugging aid: run the tasks whose id contains the given text; the run says so in caps_hit
+        n_all = len(tasks)
+        tasks = [t for t in tasks if only in t["id"]]
+        caps.append(f"JMC_ONLY={only}: {len(tasks)} of {n_all} tasks run")
     notes = set()
     ntasks = 0
     max_depth = 0
